@@ -29,6 +29,18 @@ claimed = {
  "C18": dict(cat="exploration", ref="5/C18",
    text="Arbitrary preceding history, then Stop / Shutdown(live ctx) raced with late connects, dials, closes and writes (optionally right after Start); bounded liveness (Stop returns in the fair phase) plus leak audit from the simulator's side: close notification per opened connection at return, listener gone, no engine goroutine alive, no simulated descriptor open, no timer armed. Core engine only.",
    tech="deterministic simulation: bounded-liveness + leak audit (goroutines, descriptors, timers) after seeded Stop races"),
+ "C06": dict(cat="fault_enumeration", ref="5/C06",
+   text="The transport's segmentation is the simulated fault: for every generated (optionally corrupted) pipelined HTTP/1.x stream the check ENUMERATES every single cut position, byte-at-a-time and a seeded set of multi-cut segmentations, and compares the recording Processor's event log and verdict with the one-piece feed. Complete over single cuts per stream; the stream space is sampled from a grammar.",
+   tech="deterministic simulation of the transport: exhaustive single-cut enumeration per seeded stream against the one-piece reference run"),
+ "C07": dict(cat="exploration", ref="5/C07",
+   text="Differential check against net/http as reference codec on generated well-formed pipelined messages travelling the real parser -> ServerProcessor -> handler path; compared field by field including the end offset of every message. Candidly an input-space search; the simulator contributes segmentation, pipelining, replay and shrinking.",
+   tech="seeded differential testing against a reference parser inside the simulated transport harness"),
+ "C08": dict(cat="exploration", ref="5/C08",
+   text="Byzantine peer / corrupting transport: a swept catalogue of malformed framing metadata plus seeded byte-level corruption, oversize fields and garbage, in random segmentation with small ReadLimit / MaxHTTPBodySize; oracle: no (recovered) panic, silence after the first error, catalogue rejected, retained pooled bytes and body sizes bounded (measured by the tracking allocator).",
+   tech="deterministic simulation of a corrupting transport: fault catalogue sweep + seeded corruption search with bound and silence oracles"),
+ "C09": dict(cat="exploration", ref="5/C09",
+   text="Seeded handler programs over the real Response / flushResponse code, wire bytes decoded by net/http as independent client and compared with a reference model of the handler's intent; write sizes target the 64 KiB flush threshold; a separate quarter of the batch injects transport write failures with a narrowly relaxed oracle.",
+   tech="seeded operation-sequence search with transport fault injection, reference model of handler intent + independent decoder"),
  "C17": dict(cat="exploration", ref="5/C17",
    text="Exact backlog accounting from the simulated kernel's side (accepted buffer bytes minus bytes the kernel took) compared after every call with nbio's decision (accept / ErrOverflow) and with its internal counter; fill/drain cycles and sizes around the bound are generated.",
    tech="deterministic simulation: kernel-side ground-truth accounting vs implementation decisions under seeded acceptance patterns"),
